@@ -87,12 +87,23 @@ def judge_explore(xl, xr, res, prop_words):
             final = ae.field(xobs, "final")
             case = "(case %s atpexplore (%s %s))" % (cid, session, choices)
             wtxt = ae.field(xobs, "wrong")
-            why = direct_final(session, final) or ("an Execute returned twice" if double else None) or \
-                (ae.split_top(wtxt)[2].strip('"') if wtxt else "a call got a result that is not its own")
+            wmsg = ae.split_top(wtxt)[2].strip('"') if wtxt and ae.split_top(wtxt)[1] == "1" else None
+            why = direct_final(session, final) or ("an Execute returned twice" if double else None) or wmsg or \
+                "a call got a result that is not its own"
+            if wmsg and wmsg not in why:
+                why = wmsg + "; in the same trial: " + why
             res["violations"].append(("atpexplore", case, final, "-", why + " - found by schedule exploration of the real client "
                                       "(%s); replay = the list of scheduling choices" % prop_words))
         elif first is not None:
             res["disagreements"].append(("atpexplore", line, first, "-"))
+        lf = ae.field(out, "lockfree")
+        if lf and int(ae.split_top(lf)[1]) > 0 and not (stuck or double or wrong):
+            # the lock discipline the model assumes (coq/ATP/Wire.v: every writer of the shared encoder takes c.mutex around
+            # its message; ATP/Client.v: a send is one atomic append) does not hold on the implementation's own gate trace:
+            # a broken correspondence - the interleaving itself (two writers inside Write) is the concrete failing input
+            res["disagreements"].append(("atpexplore", line, "(lockfree %s)" % ae.split_top(lf)[2],
+                                         "every Encode of c.encoder and every piece of a Write between Lock and Unlock of c.mutex "
+                                         "(Properties/C05.v C05_wire_framed)"))
     return trials, kinds
 
 
